@@ -43,6 +43,7 @@ def shards(tier):
     out = [("flows", i, 10) for i in range(10)]
     out += [("lists", a, 0) for a in range(len(ACCOUNTS))]
     out += [("discover", i, 0) for i in range(4)]
+    out += [("discover2", i, 0) for i in range(len(PATTERNS))]
     return out
 
 
@@ -191,17 +192,67 @@ def run_shard(shard, tier) -> Stats:
                         if prob and prob != "rejected":
                             st.violation(f"token list '{label}': " + prob.split(",")[0][:60], case, "credentials of the exact match only", prob)
                         st.ev(("list", a, did, endian, label, order_variant), "match" if want_i is not None else "CloudError", True)
+    elif kind == "discover2":
+        run_discover2(st, a)
     else:
         run_discover(st, a)
     st.reruns += det.reruns
     return st
 
 
+def run_discover2(st: Stats, pidx: int):
+    """Two V3 devices in one discovery; the cloud answers each request kind with a fault pattern.
+
+    Whatever happens (the documented outcome of a cloud failure is a CloudError out of discover()), every request that does
+    reach the server must verify - in particular no token request may be sent without the session of a successful login.
+    """
+    for ep in EPS:
+        for acc in (ACCOUNTS[0], ACCOUNTS[3]):
+            w = World()
+            region, account, password = creds_for(acc)
+            ids = [0x0000_0A0B_0C0D_0E01, 0x0000_0A0B_0C0D_0E02]
+            regs, devs, hosts = [], [], []
+            for k, did in enumerate(ids):
+                token, key = filler(f"c19/2t{did}", 64), filler(f"c19/2k{did}", 32)
+                regs.append({"udpId": udpid_hex(did, "little" if k == 0 else "big"), "token": token.hex(), "key": key.hex()})
+                ip = f"10.3.1.{k + 7}"
+                dev = SimDevice(version=3, token=token, key=key, device_id=did, ac=RefAC({"temp": 20.0 + k}))
+                w.net.listen(ip, 6444, dev)
+                hosts.append(sd.Host(ip, sd.reply(3, did, ip, 6444, "S" * 32, f"net_ac_00A{k}")))
+                devs.append((did, token, key))
+            plan = {ep: list(PATTERNS[pidx])}
+            srv = RefCloud(account, password, regs, now_stamp=stamp(w), plan=plan, bogus_for_unknown=True)
+            w.net.udp_responder = sd.Population(hosts)
+            case = {"kind": "discover2", "endpoint": ep, "pattern": list(PATTERNS[pidx]), "account": list(acc)}
+            try:
+                out = w.run(Discover.discover(region=region, account=acc[1], password=acc[2], auto_connect=True,
+                                              get_async_client=srv.client_factory()))
+                prob = None
+                clean = all(a in ("ok", "timeout") for a in PATTERNS[pidx]) and PATTERNS[pidx].count("timeout") < 3
+                if check_server(st, case, srv, "discover2"):
+                    prob = "rejected"
+                elif out[0] != "ok":
+                    if not isinstance(out[1], CloudError):
+                        prob = f"discover raised {type(out[1]).__name__} (only CloudError is a documented cloud failure)"
+                    elif clean:
+                        prob = f"discover raised CloudError although the fault pattern recovers within the retry budget: {str(out[1])[:60]}"
+                else:
+                    got = sorted((d.id, d.token, d.key) for d in out[1])
+                    want = sorted((did, t.hex(), k.hex()) for did, t, k in devs)
+                    if clean and got != want:
+                        prob = "devices not authenticated with their registered credentials"
+                if prob and prob != "rejected":
+                    st.violation("discover2: " + prob.split(":")[0].split(" (")[0], case, "all requests verify; devices authenticated or CloudError", prob)
+                st.ev(("disc2", ep, pidx, tuple(acc)), "ok" if out[0] == "ok" else type(out[1]).__name__, True)
+            finally:
+                w.close()
+
+
 def run_discover(st: Stats, variant: int):
     """auto_connect discovery of a V3 device registered under the little- or big-endian udpid."""
     for did in (0x0000_1122_3344_5566 & (2 ** 48 - 1), 1, 0xA1B2C3D4E5F6, 0x00FF00FF00FF):
         for endian in ("little", "big"):
-            for acc in (ACCOUNTS[variant], ACCOUNTS[(variant + 3) % len(ACCOUNTS)]):
+            for acc, unknown in ((ACCOUNTS[variant], "error"), (ACCOUNTS[(variant + 3) % len(ACCOUNTS)], "silent")):
                 w = World()
                 region, account, password = creds_for(acc)
                 token, key = filler(f"c19/t{did}", 64), filler(f"c19/k{did}", 32)
@@ -211,9 +262,10 @@ def run_discover(st: Stats, variant: int):
                 ip = "10.3.0.7"
                 model = RefAC({"temp": 19.5, "power": True})
                 dev = SimDevice(version=3, token=token, key=key, device_id=did, ac=model)
+                dev.unknown_token = unknown      # wrong-endian credentials are rejected, or just not answered
                 w.net.listen(ip, 6444, dev)
                 w.net.udp_responder = sd.Population([sd.Host(ip, sd.reply(3, did, ip, 6444, "S" * 32, "net_ac_00AA"))])
-                case = {"kind": "discover", "device_id": did, "registered_endian": endian, "account": list(acc)}
+                case = {"kind": "discover", "device_id": did, "registered_endian": endian, "account": list(acc), "unknown_token": unknown}
                 try:
                     out = w.run(Discover.discover(region=region, account=acc[1], password=acc[2], auto_connect=True,
                                                   get_async_client=srv.client_factory()))
@@ -249,5 +301,10 @@ def replay(case):
         lst = dict((l, t) for l, t, _ in token_lists(udpid))[case["list"]]
         out, srv = run_flow(tuple(case["account"]), {}, lst, udpid)
         return {"outcome": str(out)[:200], "server_problems": srv.problems}
-    run_discover(st, 0)
+    if case["kind"] == "discover2":
+        for i in range(len(PATTERNS)):
+            run_discover2(st, i)
+    else:
+        for v in range(4):
+            run_discover(st, v)
     return sorted(st.viol_counts)
